@@ -82,6 +82,13 @@ func witnesses() []Scenario {
 	return []Scenario{
 		{Name: "w-readd-remove", Ops: seq(checks(), one(Op{Kind: "add", Network: A[0], Metric: 1}), checks(), one(Op{Kind: "add", Network: A[0], Metric: 7}),
 			one(Op{Kind: "list"}), one(Op{Kind: "remove", Network: A[0]}), checks(), one(Op{Kind: "remove", Network: A[0]}), checks())},
+		// a peer's crafted ROUTE_WITHDRAW / ROUTE_ADVERTISE naming this agent as origin, between management operations
+		{Name: "w-foreign-withdraw-then-remove", Ops: seq(one(Op{Kind: "add", Network: A[0], Metric: 1}), one(Op{Kind: "frame", Frame: "withdraw", Network: A[0]}), checks(),
+			one(Op{Kind: "remove", Network: A[0]}), checks(), one(Op{Kind: "remove", Network: A[0]}), one(Op{Kind: "add", Network: A[0], Metric: 2}),
+			one(Op{Kind: "frame", Frame: "advertise", Network: A[0]}), one(Op{Kind: "frame", Frame: "withdraw", Network: A[0]}), one(Op{Kind: "add", Network: A[0], Metric: 3}),
+			one(Op{Kind: "remove", Network: A[0]}), checks())},
+		{Name: "w-foreign-withdraw-config-route", ExitEnabled: true, Routes: []string{"127.1.0.0/16"}, Ops: seq(one(Op{Kind: "frame", Frame: "withdraw", Network: "127.1.0.0/16"}), checks(),
+			one(Op{Kind: "add", Network: "127.1.2.0/24", Metric: 1}), one(Op{Kind: "frame", Frame: "withdraw", Network: "127.1.2.0/24"}), one(Op{Kind: "remove", Network: "127.1.2.0/24"}), checks())},
 		{Name: "w-readd-mapped-form", Ops: seq(one(Op{Kind: "add", Network: A[0], Metric: 1}), one(Op{Kind: "add", Network: A[2], Metric: 2}),
 			one(Op{Kind: "add", Network: A[1], Metric: 3}), one(Op{Kind: "remove", Network: A[3]}), checks())},
 		{Name: "w-config-and-dynamic", ExitEnabled: true, Routes: []string{"127.0.0.0/8"}, Ops: seq(checks(), one(Op{Kind: "add", Network: "127.1.2.0/24", Metric: 1}),
@@ -121,6 +128,7 @@ func genScenario(r *vh.Rand, idx int) Scenario {
 		}
 		return f[r.Intn(len(f))]
 	}
+	pickNetCanon := func() string { return fams[r.Intn(len(fams))][0] }
 	sc.ExitEnabled = r.Chance(1, 2)
 	if r.Chance(1, 2) {
 		n := 1 + r.Intn(2)
@@ -203,13 +211,19 @@ func genScenario(r *vh.Rand, idx int) Scenario {
 	}
 	nm := 1 + r.Intn(12)
 	for i := 0; i < nm; i++ {
-		switch r.Intn(12) {
+		switch r.Intn(13) {
+		case 12:
+			sc.Ops = append(sc.Ops, Op{Kind: "frame", Frame: "withdraw", Network: pickNetCanon()})
 		case 0, 1, 2, 3, 4:
 			sc.Ops = append(sc.Ops, Op{Kind: "add", Network: pickNet(), Metric: uint16(r.Pick(0, 1, 1, 5, 65535))})
 		case 5, 6, 7, 8:
 			sc.Ops = append(sc.Ops, Op{Kind: "remove", Network: pickNet()})
 		case 9:
-			sc.Ops = append(sc.Ops, Op{Kind: "list"})
+			if r.Chance(2, 3) {
+				sc.Ops = append(sc.Ops, Op{Kind: "frame", Frame: []string{"withdraw", "withdraw", "advertise"}[r.Intn(3)], Network: fams[r.Intn(len(fams))][0]})
+			} else {
+				sc.Ops = append(sc.Ops, Op{Kind: "list"})
+			}
 		case 10:
 			k := "add"
 			if r.Chance(1, 2) {
@@ -274,6 +288,7 @@ func main() {
 		for i, st := range []Scenario{
 			{Name: "storm-same-form", Storm: &Storm{Forms: []string{"127.1.0.0/16"}, Goroutines: 8, Rounds: c.N(1500, 20000), Dest: "127.1.2.3"}},
 			{Name: "storm-mixed-forms", Storm: &Storm{Forms: families[0], Goroutines: 4, Rounds: c.N(500, 8000), Dest: "127.1.2.3"}},
+			{Name: "storm-long-allow-list", Storm: &Storm{Forms: []string{"127.1.0.0/16"}, Goroutines: 8, Rounds: c.N(400, 6000), Dest: "127.1.2.3", Fill: 1500}},
 			{Name: "storm-with-config", ExitEnabled: true, Routes: []string{"127.2.0.0/15"}, Storm: &Storm{Forms: []string{"127.1.2.0/24", "127.1.2.77/24"}, Goroutines: 2, Rounds: c.N(500, 8000), Dest: "127.1.2.3"}},
 		} {
 			_ = i
